@@ -53,6 +53,10 @@ class BudgetExceeded(BaseException):
 class Inconsistent(BaseException):
     """Raised by a reader routine of the harness: data was yielded without an error but is not self-consistent."""
 
+    def __init__(self, msg, kind="object-under-wrong-name"):
+        super().__init__(msg)
+        self.kind = kind
+
 
 class Budget:
     """Counts Python call events; raises BudgetExceeded past the limit (termination without the wall clock)."""
@@ -736,6 +740,18 @@ def reader_seeds(ctx):
 
     def read_packed_refs(dirp):
         c = DiskRefsContainer(dirp)
+
+        def look(cc):
+            try:
+                return ("ok", dict(cc.get_packed_refs()), {n: cc.get_peeled(n) for n in (b"refs/heads/a", b"refs/tags/t") if n in cc.get_packed_refs()})
+            except Exception as e:
+                return ("exc", type(e).__name__)
+
+        # a damaged file must read the same way every time: an error on the first access and a (partial) answer on the
+        # second would mean the first, failed parse left something behind that later reads trust
+        first, second, fresh = look(c), look(c), look(DiskRefsContainer(dirp))
+        if first != second or second != fresh:
+            raise Inconsistent(f"packed-refs reads differently through the same container: first {first!r:.120}, second {second!r:.120}, fresh container {fresh!r:.120}", kind="repeated-read-differs")
         c.get_packed_refs()
         c.as_dict()
         for n in (b"refs/heads/a", b"refs/tags/t"):
@@ -820,7 +836,7 @@ def judge_reader(ctx, work, rname, files, target, reader, mname, mutated, limit,
             ctx.fail(f"C04:reader:{rname}:call-budget-exceeded", f"{rname} on {mname}: more than {limit} Python calls", check, case)
             return "budget"
         except Inconsistent as e:
-            ctx.fail(f"C04:reader:{rname}:object-under-wrong-name", f"{rname} on {mname}: {e}", check, case)
+            ctx.fail(f"C04:reader:{rname}:{e.kind}", f"{rname} on {mname}: {e}", check, case)
             return "inconsistent"
         except (MemoryError, RecursionError) as e:
             ctx.fail(f"C04:reader:{rname}:{type(e).__name__}", f"{rname} on {mname}: {type(e).__name__}", check, case)
